@@ -57,7 +57,9 @@ CompareLaw == (last.op = "compare" /\ last.out.kind = "ok") =>
   /\ CompareRel(last.rel, last.b, last.dur) = Ok(-last.out.val)
   /\ (last.out.val = 0) = (TargetOf(last.rel, last.dur) = TargetOf(last.rel, last.b))
 \* total in a unit with largest = smallest = that unit, truncated, equals the rounded duration's field
-TotalLaw == (last.op = "total" /\ last.out.kind = "ok") =>
+\* (stated for reference days <= 28, for the reason given at DirectionLaw: from a constrained month end the end point can lie beyond
+\* the bracket Temporal builds - 2020-03-31 + P30DT23:59:59.999999999 is past 03-31 + P1M = 04-30T00:00 while counting 0 whole months)
+TotalLaw == (last.op = "total" /\ last.out.kind = "ok" /\ last.rel.d <= 28) =>
   LET q == TruncDivMod(last.out.val.n, last.out.val.d).q
       rr == RoundRel(last.rel, last.dur, last.u, last.u, 1, "trunc")
   IN last.u \in DateUnits /\ rr.kind = "ok" => DurFields(rr.val)[11 - UnitIdx(last.u)] = q
